@@ -251,6 +251,25 @@ func Finish(rep *Report, opts *Options) int {
 		}
 		fmt.Printf("VIOLATION property=%s replay=%s obligation=%s status=%s%s\n", id, path, o.Name, o.Status, suffix)
 	}
+	for _, bf := range rep.BoundedFail {
+		var kf *KnownFinding
+		for _, k := range known {
+			if k.Property == id && k.Obligation == bf.Name && k.Status == "known" {
+				kf = k
+			}
+		}
+		if kf != nil {
+			fmt.Printf("KNOWN-FINDING: property=%s %s: %s\n", id, bf.Name, kf.What)
+			knownHit = append(knownHit, map[string]interface{}{"obligation": bf.Name, "what": kf.What, "status": "failed (bounded)"})
+			continue
+		}
+		violations++
+		path := filepath.Join(opts.VerifDir, "out", "replay", id+"-"+mangle(bf.Name)+".json")
+		doc := map[string]interface{}{"property": id, "obligation": bf.Name, "status": "failing inputs found by bounded execution of the real function", "failing_inputs": bf.Inputs}
+		bb, _ := json.MarshalIndent(doc, "", " ")
+		os.WriteFile(path, bb, 0o644)
+		fmt.Printf("VIOLATION property=%s replay=%s obligation=%s status=failed replayed=confirmed-on-real-code\n", id, path, bf.Name)
+	}
 	for _, b := range rep.Broken {
 		fmt.Printf("BROKEN: property=%s %s\n", id, b)
 	}
